@@ -31,3 +31,34 @@ Theorem C02_reachable_no_false_negatives :
     rsearch chk (run builtins ops) p <> None.
 Proof. intros builtins ops chk p r i vs. apply search_complete. apply reachable_inv_b. Qed.
 Print Assumptions C02_reachable_no_false_negatives.
+
+(* ---- the tests on literal prefixes, REGENERATED from src/node/{search,delete,insert,find}.rs on this run
+        (Gen/Prefixes.v): read with the meaning of the Rust iterator expressions they ARE the predicates of the model -
+        `p.len() >= k.len() && k.iter().zip(p).all(==)` is starts_with and `&p[k.len()..]` the rest it returns (search_static,
+        delete_static); `k[0] == p[0]` is same_first (insert_static, find_static); the common prefix is lcp - for all
+        byte strings ---- *)
+From Coq Require Import Ascii String.
+From WF Require Import Base.Bytes Model.Ops Check.Tokens Gen.Prefixes Proofs.PrefixesP.
+Theorem C02_regenerated_prefix_tests_are_the_model_predicates :
+  (forall f cs sl, In (f, cs, sl) gen_prefix_tests ->
+     (f = w "search_static" \/ f = w "delete_static") ->
+     sl = w "child.state.prefix.len().." /\
+     forall k p, sem_test cs k p = match starts_with k p with Some _ => true | None => false end
+                 /\ (forall rest, starts_with k p = Some rest -> skipn (length k) p = rest))
+  /\ (forall f cs sl, In (f, cs, sl) gen_prefix_tests ->
+     (f = w "insert_static" \/ f = w "find_static") -> forall k p, sem_test cs k p = same_first k p)
+  /\ Forall (fun fb : bytes * bool => snd fb = true) gen_common_prefix
+  /\ (forall p k, take_while_count (combine p k) = lcp p k)
+  /\ map (fun x : bytes * list pcond * bytes => fst (fst x)) gen_prefix_tests
+     = [w "search_static"; w "delete_static"; w "insert_static"; w "find_static"].
+Proof. exact regenerated_prefix_tests_are_the_model_predicates. Qed.
+Print Assumptions C02_regenerated_prefix_tests_are_the_model_predicates.
+
+(* ---- the eight parameter searches of src/node/search.rs as sequences of recognised statements, REGENERATED on this run
+        (Gen/Loops.v): each has exactly the statements, in the order, of one of the loop shapes of Model/SearchC.v (grow in its
+        three modes, dyn_segment), over the child list of its kind, with the constraint check exactly in the constrained ones,
+        and no further continue / break / return ---- *)
+From WF Require Import Gen.Loops Proofs.LoopsP.
+Theorem C02_search_loops_have_the_model_shapes : loops_eqb gen_search_loops expected_loops = true.
+Proof. exact search_loops_have_the_model_shapes. Qed.
+Print Assumptions C02_search_loops_have_the_model_shapes.
